@@ -10,7 +10,9 @@ import warnings
 warnings.simplefilter("ignore")
 HERE = os.path.dirname(os.path.abspath(__file__))
 sys.path.insert(0, HERE)
-sys.path.insert(0, "/repo")
+REPO = os.environ.get("VERIF_REPO", "/repo")      # selftest points this at a mutated scratch copy
+sys.path.insert(0, REPO)
+os.environ["PYTHONPATH"] = REPO + os.pathsep + HERE + os.pathsep + os.environ.get("PYTHONPATH", "")
 os.environ.setdefault("PYTHONHASHSEED", "0")
 os.environ.setdefault("TYPHON_VERIF", "1")
 
@@ -25,6 +27,10 @@ def main():
     ap.add_argument("--replay")
     a = ap.parse_args()
     seed = int(os.environ.get("VERIF_SEED", "20260926"))
+    import typhon
+    if not os.path.abspath(typhon.__file__).startswith(os.path.abspath(REPO) + os.sep):
+        print("MACHINERY-ERROR %s: typhon imported from %s, not from %s" % (a.pid, typhon.__file__, REPO))
+        sys.exit(2)
     mod = importlib.import_module(a.pid.lower())
     ctx = Ctx(a.pid, a.tier, seed)
     try:
